@@ -22,6 +22,7 @@ EXPLANATION = (
 SRC = 'gear/gear/time_limited_max_size_cache.py'
 HM = 'harness.C26_cache'
 MODES = {3: 'bounded / fresh / right key / errors over sequential histories (each lookup finished before the next step)',
+         4: 'bounded / fresh / single-flight / fails-only-own-caller / live over schedules in which no cancel hits a load leader or follower',
          0: 'bounded / fresh / single-flight / fails-only-own-caller / live over all schedules',
          1: 'cancelling the leader of a shared load does not fail the other callers (cancels hit load leaders only)',
          2: 'cancelling a follower of a shared load does not fail the other callers (cancels hit followers only)'}
@@ -32,7 +33,7 @@ def params(k, NT):
     n = range(1, k)
     return ([('slots', 'int', 1, 2), ('lifetime', 'int', 1, H.LMAX)] + [(f'a{i}', 'int', 0, 5 + min(i, NT)) for i in n]
             + [(f'key{i}', 'int', 0, H.NK - 1) for i in n] + [(f'dt{i}', 'int', 0, H.DTMAX) for i in n]
-            + [(f'd{i}', 'bool') for i in range(k - 1)] + [('mode', 'int', 0, 2)])
+            + [(f'd{i}', 'bool') for i in range(k - 1)] + [('mode', 'int', 0, 4)])
 
 
 def describe(a, meta):
@@ -92,13 +93,13 @@ def run(R):
     A2 = list(range(0, 8))
     if R.tier == 'quick':
         pct = 240
-        groups = [group(2, 4, 0, {'a1': A1, 'd0': B, 'd1': B}), group(2, 3, 1, {'d0': B}), group(2, 3, 2, {'d0': B}),
+        groups = [group(2, 4, 4, {'a1': A1, 'd0': B, 'd1': B}), group(2, 4, 0, {'a1': A1, 'd0': B, 'd1': B}), group(2, 3, 1, {'d0': B}), group(2, 3, 2, {'d0': B}),
                   group_seq(5, {'a1': B, 'a2': B, 'slots': [1, 2]})]
         R.bounds = {'keys': 2, 'num_slots': '1..2', 'lifetime': '1..4', 'tasks': 2, 'steps': 'k=4', 'clock increment': '0..6',
                     'sequential family': '5 steps (lookups finished one after another, loads succeed or fail, clock advances 0..6)'}
     else:
         pct = 1300
-        groups = [group(3, 4, 0, {'a1': A1, 'd0': B, 'd1': B, 'slots': [1, 2]}), group(2, 5, 0, {'a1': A1, 'a2': A2, 'd0': B, 'd1': B}),
+        groups = [group(3, 4, 4, {'a1': A1, 'd0': B, 'd1': B, 'slots': [1, 2]}), group(3, 4, 0, {'a1': A1, 'd0': B, 'd1': B, 'slots': [1, 2]}), group(2, 5, 0, {'a1': A1, 'a2': A2, 'd0': B, 'd1': B}),
                   group(3, 3, 1, {'d0': B}), group(3, 3, 2, {'d0': B}), group(2, 4, 1, {'d0': B, 'd1': B}), group(2, 4, 2, {'d0': B, 'd1': B}),
                   group_seq(6, {'a1': B, 'a2': B, 'a3': B, 'slots': [1, 2], 'key1': [0, 1]})]
         R.bounds = {'keys': 2, 'num_slots': '1..2', 'lifetime': '1..4', 'shapes': '(3 tasks, k=4), (2 tasks, k=5)', 'clock increment': '0..6',
